@@ -9,4 +9,6 @@ java -version >/dev/null 2>&1
 for m in spec/*.tla; do
   ( cd spec && java -cp /opt/veriftools/tla/tla2tools.jar:/opt/veriftools/tla/CommunityModules-deps.jar tla2sany.SANY "$(basename "$m")" >/dev/null 2>&1 ) || { echo "SANY failed on $m"; exit 1; }
 done
+# runnable example instances next to copies of the modules (spec/examples), regenerated from the harness's own constants
+/venv/bin/python -W ignore -m harness.dump_examples >/dev/null
 echo setup ok
